@@ -200,7 +200,8 @@ Section Inv.
   Qed.
 
   Definition set_orc (s : state) (o : oracle) : state :=
-    {| st_store := st_store s; st_orc := o; st_txns := st_txns s; st_closed := st_closed s; st_hist := st_hist s |}.
+    {| st_store := st_store s; st_orc := o; st_txns := st_txns s; st_closed := st_closed s; st_broken := st_broken s;
+       st_hist := st_hist s |}.
 
   Lemma inv_commit_fail s keys :
     Inv s -> Inv (set_orc s (fst (commit_orc keys (st_orc s)))).
@@ -236,7 +237,7 @@ Section Inv.
     let o3 := fst (commit_orc keys (st_orc s)) in
     let ts := o_next (st_orc s) in
     Inv {| st_store := entries ts ws ++ st_store s; st_orc := o3; st_txns := st_txns s;
-           st_closed := false;
+           st_closed := false; st_broken := false;
            st_hist := {| h_ts := ts; h_reads := log; h_writes := ws |} :: st_hist s |}.
   Proof.
     intros HI Hkeys Hlog Hne o3 ts.
@@ -246,7 +247,7 @@ Section Inv.
     pose proof (i_pos s HI) as Hp. fold ts in Hp.
     assert (Habove : forall v e, v < ts -> In e (entries ts ws) -> v < se_ver e).
     { intros v e Hv He. apply entries_ver in He. lia. }
-    constructor; cbn [st_store st_orc st_txns st_hist st_closed].
+    constructor; cbn [st_store st_orc st_txns st_hist st_closed st_broken].
     - cbn [hist_store flat_map h_ts h_writes]. fold (hist_store (st_hist s)). now rewrite <- (i_store s HI).
     - constructor; [apply (i_desc s HI)|]. intros r' Hr'. cbn [h_ts]. pose proof (i_next s HI r' Hr'). fold ts in H. lia.
     - intros r [<-|Hr]; cbn [h_ts]; [lia|]. pose proof (i_next s HI r Hr). fold ts in H. lia.
@@ -321,7 +322,7 @@ Section Inv.
 
   Theorem step_inv s o : Inv s -> Inv (fst (step s o)).
   Proof.
-    intros HI. destruct o as [id u|id k|id k v|id|id| | |k]; cbn [step].
+    intros HI. destruct o as [id u|id k|id k v|id|id| | | |k]; cbn [step].
     - (* Begin *)
       destruct (st_txns s id) as [t|] eqn:Et.
       + destruct (t_discarded t); [|exact HI].
@@ -375,6 +376,8 @@ Section Inv.
       { cbn [fst]. rewrite Ho3. exact (inv_commit_fail sA (t_ckeys t) HA). }
       destruct (st_closed s).
       { cbn [fst]. rewrite Ho3. exact (inv_commit_fail sA (t_ckeys t) HA). }
+      destruct (st_broken s).
+      { cbn [fst]. rewrite Ho3. exact (inv_commit_fail sA (t_ckeys t) HA). }
       cbn [fst]. rewrite Ho3, Hts.
       assert (Hn : o_next (st_orc sA) = o_next (st_orc s)).
       { destruct (discard_orc_facts id t (st_orc s)) as (Hn & _). exact Hn. }
@@ -411,6 +414,10 @@ Section Inv.
         * intros r Hr. specialize (Hh r Hr). lia.
         * intros; discriminate.
         * intros _ e He Hv. specialize (Hmx e He). lia.
+    - (* FailWal *)
+      cbn [fst]. destruct HI as [A1 A2 A3 A4 A5 A6 A7 A8 A9 A10 A11].
+      constructor; cbn [st_store st_orc st_txns st_hist st_closed st_broken]; try assumption.
+      intros j t Hj Hd. destruct (A8 j t Hj Hd). constructor; cbn [st_store st_orc]; assumption.
     - (* Dump *) exact HI.
   Qed.
 
@@ -451,7 +458,7 @@ Section Theorems.
     Inv fp c s -> v < o_next (st_orc s) ->
     read_at (st_store (fst (step s o))) k v = read_at (st_store s) k v.
   Proof.
-    intros HI Hv. destruct o as [id u|id k0|id k0 v0|id|id| | |k0]; cbn [step]; try reflexivity.
+    intros HI Hv. destruct o as [id u|id k0|id k0 v0|id|id| | | |k0]; cbn [step]; try reflexivity.
     - destruct (st_txns s id) as [t|]; [destruct (t_discarded t)|];
         try destruct (wm_done (o_txnmark (st_orc s)) <? read_ts (st_orc s)); reflexivity.
     - destruct (st_txns s id) as [t|]; [|reflexivity]. destruct (t_discarded t); [reflexivity|].
@@ -462,7 +469,8 @@ Section Theorems.
       destruct (t_pending t) as [|p ps]; [reflexivity|].
       destruct (has_conflict (st_orc s) t); [reflexivity|].
       destruct (orc_issue c (t_ckeys t) (orc_cleanup true c (discard_orc id t (st_orc s)))) as [o2 ts] eqn:Ei.
-      destruct (_ || _); [reflexivity|]. destruct (st_closed s); [reflexivity|]. cbn [fst st_store].
+      destruct (_ || _); [reflexivity|]. destruct (st_closed s); [reflexivity|]. destruct (st_broken s); [reflexivity|].
+      cbn [fst st_store].
       apply read_at_app_above. intros e He. apply entries_ver in He. rewrite He.
       unfold orc_issue in Ei. inversion Ei; subst ts.
       replace (o_next (orc_cleanup true c (discard_orc id t (st_orc s)))) with (o_next (st_orc s)); [exact Hv|].
@@ -484,7 +492,7 @@ Section Theorems.
     change (fold_left (fun s0 o0 => fst (step s0 o0)) ops (fst (step s o))) with (run_state (fst (step s o)) ops).
     rewrite IH; [now apply step_below | now apply step_inv | | exact Hall'].
     (* the timestamp counter does not go back without a reopen *)
-    clear IH Hall Hall'. destruct o as [id' u|id' k0|id' k0 v0|id'|id'| | |k0]; cbn [step]; try exact Hr.
+    clear IH Hall Hall'. destruct o as [id' u|id' k0|id' k0 v0|id'|id'| | | |k0]; cbn [step]; try exact Hr.
     - destruct (st_txns s id') as [t'|]; [destruct (t_discarded t')|];
         try destruct (wm_done (o_txnmark (st_orc s)) <? read_ts (st_orc s)); exact Hr.
     - destruct (st_txns s id') as [t'|]; [|exact Hr]. destruct (t_discarded t'); [exact Hr|].
@@ -500,7 +508,7 @@ Section Theorems.
       { rewrite <- Hd. unfold orc_cleanup. destruct (negb (cf_detect c)); [reflexivity|].
         destruct (_ <=? _); reflexivity. }
       unfold orc_issue. destruct (_ || _); [cbn; rewrite Hc; lia|].
-      destruct (st_closed s); cbn; rewrite Hc; lia.
+      destruct (st_closed s); [cbn; rewrite Hc; lia|]. destruct (st_broken s); cbn; rewrite Hc; lia.
     - destruct (st_txns s id') as [t'|]; [|exact Hr]. destruct (t_discarded t'); [exact Hr|].
       cbn. unfold discard_orc. destruct (t_doneread t'); exact Hr.
     - congruence.
@@ -559,7 +567,8 @@ Section Theorems.
     destruct (has_conflict (st_orc s) t); [intro H; inversion H; reflexivity|].
     destruct (orc_issue c (t_ckeys t) _) as [o2 ts].
     destruct (_ || _); [intro H; inversion H; reflexivity|].
-    destruct (st_closed s); intro H; inversion H; subst; [reflexivity|].
+    destruct (st_closed s); [intro H; inversion H; reflexivity|].
+    destruct (st_broken s); intro H; inversion H; subst; [reflexivity|].
     exists t. repeat split; [congruence | now rewrite Ep].
   Qed.
 
@@ -582,7 +591,7 @@ Section Theorems.
       destruct (t_pending t) as [|p ps]; [inversion Hstep|].
       destruct (has_conflict (st_orc s) t); [inversion Hstep|].
       unfold orc_issue in Hstep. destruct (_ || _); [inversion Hstep|].
-      destruct (st_closed s); inversion Hstep.
+      destruct (st_closed s); [inversion Hstep|]. destruct (st_broken s); inversion Hstep.
       unfold orc_cleanup, discard_orc. destruct (negb (cf_detect c)), (t_doneread t); cbn;
         try reflexivity; destruct (_ <=? _); reflexivity. }
     assert (Hb : forall e, In e (st_store s) -> se_ver e < ts).
@@ -654,3 +663,10 @@ Proof.
   split; [vm_compute; reflexivity|]. split; [reflexivity|]. split; [discriminate|].
   split; [vm_compute; reflexivity | vm_compute; discriminate].
 Qed.
+
+(** the injected apply failure: Commit reports an error and stores nothing *)
+Example apply_failure_reports_error :
+  let s := TxnOracle.run_state true wfp wcfg st_init [Begin 0 true; Put 0 wk (Some wk); FailWal] in
+  snd (TxnOracle.step true wfp wcfg s (Commit 0)) = OErr EApply /\
+  st_store (fst (TxnOracle.step true wfp wcfg s (Commit 0))) = [].
+Proof. vm_compute. split; reflexivity. Qed.
